@@ -10,13 +10,8 @@ spherical_harmonic._transform_einsum on every call the transforms make (0 and 1 
 many levels, stacked and unstacked Fourier step).
 """
 import contextlib
-import os
 
 import numpy as np
-
-import common
-
-HAVE_MODEL = os.path.exists(os.path.join(common.LEAN, 'Dino', 'ShardEinsum.lean'))
 
 
 def chars(s):
@@ -156,9 +151,6 @@ MALFORMED = ['ab,bc->ac', 'ab,bc->', 'a...b,bc->ac', '...ab,bc->...ac', 'ab,bc->
 
 def part_einsum_logic(ctx, env):
   """model-vs-code correspondence of the string logic + the reversed-order sentinel; returns nothing."""
-  if not HAVE_MODEL:
-    ctx.notes.append('sharded_einsum string-logic correspondence skipped: Dino/ShardEinsum.lean not merged yet')
-    return
   jnp, jnu, P = env.jnp, env.jnu, env.P
   rng = ctx.rng
   lines, checks = [], []
